@@ -1,6 +1,8 @@
 # Registry of property checks.
 from p_tokens import C16
+from p_router import C17
 
 REGISTRY = {
     'C16': C16,
+    'C17': C17,
 }
